@@ -116,7 +116,7 @@ InitSnapQuick ==
   \E a \in BoundedSeq(AddOpt(STq, SIq, SDq), 2), a2 \in BoundedSeq(AddOpt({<<5>>, U1, U3}, {0}, {<<3>>}), 2) :
     c = SnapCase(a, a2, ProbesOf(STq \cup {U3}, SIq))
 InitSnapThorough ==
-  \E a \in BoundedSeq(AddOpt(STq, SIq, SDq), 3), a2 \in BoundedSeq(AddOpt({<<5>>, U1, U2, U3}, {0}, {<<3>>}), 1) :
+  \E a \in BoundedSeq(AddOpt(STq, SIq, SDq), 3), a2 \in BoundedSeq(AddOpt({<<5>>, U1, U2, U3}, {0}, {<<3>>}), 2) :
     c = SnapCase(a, a2, ProbesOf(STq \cup {U3}, SIq))
 
 \* the user's view: the first successful add of every (type, id)
